@@ -291,92 +291,66 @@ func freshChildRule(r *Run, rule string) {
 		r.Lost(rule, "Context.New")
 		return
 	}
-	recv := newM.Obj.Type().(*types.Signature).Recv()
-	var cons *FuncInfo
-	okCall := false
-	for _, c := range callsIn(newM.Decl.Body, false) {
-		cal := calleeOf(info, c)
-		fi := w.FuncOf(cal)
-		if fi == nil || len(c.Args) != 2 {
-			continue
-		}
-		cons = fi
-		freshMap := false
-		switch a := unparen(c.Args[0]).(type) {
-		case *ast.CompositeLit:
-			freshMap = len(a.Elts) == 0 && isMapStringIface(info.Types[a].Type)
-		case *ast.CallExpr:
-			freshMap = builtinName(info, a) == "make"
-		}
-		if freshMap && objOf(info, c.Args[1]) == recv {
-			okCall = true
-		}
-		con := "child construction " + short(w.Fset, c)
-		if okCall {
-			r.Ok(rule, newM.Name(), con, w.Pos(c.Pos()), "fresh empty map; outer = the receiver")
-		} else {
-			r.Bad(rule, newM.Name(), con, w.Pos(c.Pos()), "a child context must get a fresh empty map of its own and the receiver itself as its outer context")
-		}
-	}
-	if cons == nil {
-		r.Lost(rule, "constructor call in Context.New")
+	bld := w.ctxBuilder(newM, 0)
+	if bld == nil {
+		r.Lost(rule, "construction of the child context in Context.New (one literal or one call of a constructor)")
 		return
 	}
-	// New must not do anything else with the receiver's chain
-	if len(newM.Decl.Body.List) > 2 {
-		r.Bad(rule, newM.Name(), fmt.Sprintf("%d statements", len(newM.Decl.Body.List)), w.Pos(newM.Decl.Pos()), "Context.New is expected to only construct and return the child")
-	}
-	// the constructor's literal stores exactly its parameters
-	sig := cons.Obj.Type().(*types.Signature)
-	dataP, outP := sig.Params().At(0), sig.Params().At(1)
-	good := false
-	inspectBody(cons.Decl.Body, false, func(n ast.Node) bool {
-		cl, ok := n.(*ast.CompositeLit)
-		if !ok {
-			return true
-		}
-		if nt, ok := info.Types[cl].Type.(*types.Named); !ok || nt.Obj() != ct.Obj() {
-			return true
-		}
-		dOK, oOK := false, false
-		for _, e := range cl.Elts {
-			kv, ok := e.(*ast.KeyValueExpr)
-			if !ok {
-				continue
-			}
-			k, _ := kv.Key.(*ast.Ident)
-			if k == nil {
-				continue
-			}
-			fld, _ := info.Uses[k].(*types.Var)
-			if fld == nil {
-				continue
-			}
-			switch {
-			case isMapStringIface(fld.Type()):
-				dOK = objOf(info, kv.Value) == dataP
-			case namedIs(fld.Type(), modPath, "Context") && !fld.Embedded():
-				oOK = objOf(info, kv.Value) == outP
-			}
-		}
-		good = dOK && oOK
-		return true
-	})
-	reassigned := false
-	inspectBody(cons.Decl.Body, false, func(n ast.Node) bool {
-		if as, ok := n.(*ast.AssignStmt); ok {
-			for _, l := range as.Lhs {
-				if o := objOf(info, l); o == dataP || o == outP {
-					reassigned = true
-				}
-			}
-		}
-		return true
-	})
-	if good && !reassigned {
-		r.Ok(rule, cons.Name(), "context literal", w.Pos(cons.Decl.Pos()), "data: <data parameter>, outer: <outer parameter>")
+	con := "child construction " + short(w.Fset, bld.origin)
+	if bld.data.kind == "freshmap" && bld.outer.kind == "recv" {
+		r.Ok(rule, newM.Name(), con, w.Pos(bld.origin.Pos()), "fresh empty map; outer = the receiver")
 	} else {
-		r.Bad(rule, cons.Name(), "context literal", w.Pos(cons.Decl.Pos()), "the constructor must store exactly the map and the outer context it was given")
+		r.Bad(rule, newM.Name(), con, w.Pos(bld.origin.Pos()),
+			fmt.Sprintf("a child context must get a fresh empty map of its own and the receiver itself as its outer context (data: %s, outer: %s)", bld.data, bld.outer))
+	}
+	// New must not do anything else: no other call, no store through the receiver
+	extra := 0
+	for _, c := range callsIn(newM.Decl.Body, false) {
+		if ast.Expr(c) != bld.origin && builtinName(info, c) == "" {
+			extra++
+		}
+	}
+	if extra > 0 {
+		r.Bad(rule, newM.Name(), fmt.Sprintf("%d further call(s)", extra), w.Pos(newM.Decl.Pos()), "Context.New is expected to only construct and return the child")
+	}
+	for _, ret := range returnsIn(newM.Decl.Body) {
+		okRet := false
+		if len(ret.Results) == 1 {
+			e := unparen(ret.Results[0])
+			if u, isU := e.(*ast.UnaryExpr); isU {
+				e = unparen(u.X)
+			}
+			okRet = e == bld.origin || (bld.newVar != nil && objOf(info, e) == bld.newVar)
+		}
+		if !okRet {
+			r.Bad(rule, newM.Name(), "return "+short(w.Fset, ret), w.Pos(ret.Pos()), "Context.New must return the freshly built child on every path (never the receiver or a shared context)")
+		}
+	}
+	// every constructor on the way stores exactly what it is given
+	for g, depth := newM, 0; g != nil && depth < 5; depth++ {
+		b := w.ctxBuilder(g, 0)
+		if b == nil {
+			break
+		}
+		call, isCall := b.origin.(*ast.CallExpr)
+		if !isCall {
+			break
+		}
+		next := w.FuncOf(calleeOf(g.Pkg.TypesInfo, call))
+		if next == nil {
+			break
+		}
+		nb := w.ctxBuilder(next, 0)
+		if nb == nil {
+			break
+		}
+		ccon := "context built from (" + nb.data.String() + ", " + nb.outer.String() + ")"
+		if nb.data.kind == "param" && nb.outer.kind == "param" && nb.data.idx != nb.outer.idx {
+			r.Ok(rule, next.Name(), ccon, w.Pos(next.Decl.Pos()), "data: <data parameter>, outer: <outer parameter>")
+		} else {
+			r.Bad(rule, next.Name(), "context literal", w.Pos(next.Decl.Pos()), "the constructor must store exactly the map and the outer context it was given")
+		}
+		g = next
 	}
 }
 
